@@ -272,7 +272,7 @@ func ruleAddrErrors(id string) func(*Checker) {
 }
 
 func checkErrorsIn(c *Checker, R string, pkgNames ...string) {
-	c.rule(R, "In "+strings.Join(pkgNames, ", ")+" every call whose results include an error is classified: the error must be returned (directly, wrapped, through a result cell or phi), or compared with nil with the non-nil edge leading to a non-nil error return / an error diagnostic / a panic, or passed on (callback, tracer, wrapper struct). Accepted idioms: deferred Close of a file opened read-only, fmt.Fprint* to os.Stderr. Everything else needs a named exception with a reason.", 30)
+	c.rule(R, "In "+strings.Join(pkgNames, ", ")+" every call whose results include an error is classified: the error must be returned (directly, wrapped, through a result cell or phi), or compared with nil with the non-nil edge leading to a non-nil error return / an error diagnostic / a panic, or passed on (callback, tracer, wrapper struct). Accepted idioms: deferred Close of a file opened read-only, fmt.Fprint* to os.Stderr (or to a writer that defaults to it). Everything else needs a named exception with a reason.", 30)
 	p := c.P
 	pkgs := map[string]bool{}
 	for _, n := range pkgNames {
@@ -486,15 +486,32 @@ func isStderrPrint(ci ssa.CallInstruction) bool {
 	if !(isFunc(o, "fmt", "Fprintf") || isFunc(o, "fmt", "Fprintln") || isFunc(o, "fmt", "Fprint")) {
 		return false
 	}
-	a := ci.Common().Args[0]
-	if mi, ok := a.(*ssa.MakeInterface); ok {
-		if u, ok := mi.X.(*ssa.UnOp); ok {
-			if g, ok := u.X.(*ssa.Global); ok && g.Name() == "Stderr" {
+	// os.Stderr itself, or a writer that is os.Stderr unless the caller configured another one for
+	// these diagnostics (`w := warnings; if w == nil { w = os.Stderr }`)
+	var isStderr func(v ssa.Value, depth int) bool
+	isStderr = func(v ssa.Value, depth int) bool {
+		if depth > 4 {
+			return false
+		}
+		switch x := v.(type) {
+		case *ssa.MakeInterface:
+			return isStderr(x.X, depth+1)
+		case *ssa.ChangeInterface:
+			return isStderr(x.X, depth+1)
+		case *ssa.UnOp:
+			if g, ok := x.X.(*ssa.Global); ok && g.Name() == "Stderr" && g.Pkg != nil && g.Pkg.Pkg.Path() == "os" {
 				return true
 			}
+		case *ssa.Phi:
+			for _, e := range x.Edges {
+				if isStderr(e, depth+1) {
+					return true
+				}
+			}
 		}
+		return false
 	}
-	return false
+	return isStderr(ci.Common().Args[0], 0)
 }
 
 func ruleC12Illegal(c *Checker) {
